@@ -292,7 +292,7 @@ fn node_edits(s: &Spec, include_sms_name: bool) -> Vec<(&'static str, Spec)> {
           out.push(("reorder children", Spec::Concat { how: *how, children: c }));
         }
       }
-      out.push(("construction style (no observable change)", Spec::Concat { how: (*how + 1) % 3, children: children.clone() }));
+      out.push(("construction style (no observable change)", Spec::Concat { how: (*how + 1) % 5, children: children.clone() }));
       // re-bracketing: the next sibling moves into the ConcatSource at the bottom of the preceding child
       // (reached through ReplaceSource / Box layers), i.e. one child changes its parent
       for i in 0..children.len().saturating_sub(1) {
